@@ -52,11 +52,18 @@ GAMMAS_SMALL = [Gamma(1, 0), Gamma(Fraction(1, 2), 0), Gamma(2, -3), Gamma(1, -7
 # quantity functions.  They are created with eval so that every one is a self-contained lambda
 # without closure cells (UserFcn.__reduce__ cannot pickle cells) and without module globals.
 
+RECMODE = ["dict"]  # how records are handed to fill(): "dict", "attr" (attribute records) or "scalar" (bare numbers)
+
+
 def _fn_src(field, fid):
     if field == "N2":
         core = "__import__('numpy').array([d['x'], d['y']]).T"
     elif field == "cS":
         core = "(d['c'] if d['c'] is not None else 'None')"
+    elif RECMODE[0] == "attr":
+        core = "d.%s" % field
+    elif RECMODE[0] == "scalar":
+        core = "d"
     else:
         core = "d[%r]" % field
     if fid:
@@ -70,6 +77,12 @@ def make_quantity(node):
     import histogrammar as hg
     from histogrammar.util import named, cached
 
+    if "qe" in node:
+        from . import expr as E
+
+        if node.get("form") == "str":
+            return E.as_string(node["qe"])
+        return eval(E.as_lambda_src(node["qe"], RECMODE[0]), {})
     field = node["q"]
     if node["k"] == "Bag":
         field = {"N": field, "N2": "N2", "S": "cS"}[node["range"]]
@@ -193,8 +206,22 @@ def check_exact(d, g):
 CAT = {"None": None, "True": True, "False": False}
 
 
+class AttrRecord:
+    def __init__(self, d):
+        self.__dict__.update(d)
+
+
 def datum(x, g):
-    """abstract datum record -> dict record for row-wise fill"""
+    """abstract datum record -> record for row-wise fill (dict, attribute record or bare scalar)"""
+    d = _datum(x, g)
+    if RECMODE[0] == "attr":
+        return AttrRecord(d)
+    if RECMODE[0] == "scalar":
+        return d["x"]
+    return d
+
+
+def _datum(x, g):
     c = x["c"]
     return {
         "x": g.pos(x["x"]),
